@@ -8,6 +8,7 @@
 #include <aws/common/byte_buf.h>
 #include <aws/common/byte_order.h>
 #include <aws/common/clock.h>
+#include <aws/common/math.h>
 #include <aws/common/string.h>
 #include <aws/common/time.h>
 
@@ -701,8 +702,10 @@ double aws_date_time_as_epoch_secs(const struct aws_date_time *dt) {
 }
 
 uint64_t aws_date_time_as_nanos(const struct aws_date_time *dt) {
-    return aws_timestamp_convert((uint64_t)dt->timestamp, AWS_TIMESTAMP_SECS, AWS_TIMESTAMP_NANOS, NULL) +
-           aws_timestamp_convert((uint64_t)dt->milliseconds, AWS_TIMESTAMP_MILLIS, AWS_TIMESTAMP_NANOS, NULL);
+    /* both terms saturate; so must their sum (a plain + wraps for instants after 2554 that carry milliseconds) */
+    return aws_add_u64_saturating(
+        aws_timestamp_convert((uint64_t)dt->timestamp, AWS_TIMESTAMP_SECS, AWS_TIMESTAMP_NANOS, NULL),
+        aws_timestamp_convert((uint64_t)dt->milliseconds, AWS_TIMESTAMP_MILLIS, AWS_TIMESTAMP_NANOS, NULL));
 }
 
 uint64_t aws_date_time_as_millis(const struct aws_date_time *dt) {
